@@ -199,10 +199,14 @@ func H_C18_reuse_after_cancel() {
 	var mu vfMutex
 	announced := 0
 	var got []uint64
+	var firstConn RpcReadWriter
 	onNew := func(rw RpcReadWriter) {
 		vfHarnessGoroutine()
 		mu.vfLock()
 		announced++
+		if firstConn == nil {
+			firstConn = rw
+		}
 		mu.vfUnlock()
 		for {
 			r, err := rw.Read(context.Background())
@@ -236,6 +240,10 @@ func H_C18_reuse_after_cancel() {
 		if twice == 1 {
 			d.Cancel("A")
 		}
+		// Cancel has returned: a write on the cancelled logical connection must fail (and put
+		// nothing on the shared transport)
+		werr := firstConn.Write(context.Background(), &Rpc{Id: 99})
+		vfAssert(werr != nil, "write-on-a-cancelled-connection-fails")
 		shared.in <- &Rpc{Id: 2, Header: &RpcHeader{Source: "A"}}
 		done = true
 	}()
@@ -243,6 +251,9 @@ func H_C18_reuse_after_cancel() {
 		vfAssert(done, "script-completes")
 		vfAssert(len(got) == 2 && got[0] == 1 && got[1] == 2, "envelope-after-cancel-delivered-exactly-once-in-order")
 		vfAssert(announced == 2, "key-reused-after-cancel-gets-a-fresh-announced-connection")
+		for _, w := range shared.written() {
+			vfAssert(w.Id != 99, "nothing-written-for-a-cancelled-key")
+		}
 		vfReach("checked")
 		d.Stop()
 	})
